@@ -126,6 +126,7 @@ func runC09(p *core.Prog, r *core.Report) {
 	r.Rule("C09-R4", "sibling agreement of the Value.Set implementations: *v is assigned on every path; a parser runs only for non-empty text; the empty path assigns the zero value; the parser's error is returned; the type switch that builds Values covers every Value type", 9)
 	r.Rule("C09-R5", "JSON carrier choice: the environment carrier is consulted only when the config path is empty", 1)
 	r.Rule("C09-R6", "presence, not content: an environment value is recorded iff os.LookupEnv reports the variable present (an empty value still counts as mentioned)", 1)
+	r.Rule("C09-R7", "the environment name of a nested field keeps a '_' separator between the group path and the field name", 0)
 	r.NotDecided = append(r.NotDecided, "the textual mappings: env-var spelling via strutil.Underscore, JSON key matching, what each strconv parser accepts")
 	r.Trusted = append(r.Trusted, "encoding/json.Unmarshal leaves fields absent from the document untouched", "reflect.Value.Addr().Interface() yields a pointer to the field itself", "os.LookupEnv distinguishes unset from empty", "go/ssa")
 
@@ -243,6 +244,57 @@ func runC09(p *core.Prog, r *core.Report) {
 			}
 		})
 	}
+	// converse of the guards: when the command line mentions a flag, its text is applied on every path that moves on to
+	// the next flag (an early `continue` for "unchanged" text would let a lower-priority source win)
+	for _, fn := range fl {
+		_, cliNonNil := fieldNilEdges(fn, "field:Flag.ArgValue")
+		if len(cliNonNil) == 0 {
+			continue
+		}
+		cut := sx.Cut{Instrs: map[ssa.Instruction]bool{}}
+		sx.Instrs(fn, func(in ssa.Instruction) {
+			if call, ok := in.(ssa.CallInstruction); ok && c.isSet(call) && setSource(call) == "cli" {
+				cut.Instrs[in] = true
+			}
+		})
+		if len(cut.Instrs) == 0 {
+			continue
+		}
+		hdr := sx.InnermostLoop(fn, func() *ssa.BasicBlock {
+			for in := range cut.Instrs {
+				return in.Block()
+			}
+			return nil
+		}())
+		ok := true
+		for e := range cliNonNil {
+			tb := e.To()
+			if len(tb.Instrs) == 0 {
+				continue
+			}
+			first := tb.Instrs[0]
+			if cut.Instrs[first] {
+				continue
+			}
+			// from the "cli text present" edge: the next iteration / a nil return must not be reachable without the Set
+			if hdr != nil {
+				for be := range sx.BackEdgesTo(hdr) {
+					term := be.From.Instrs[len(be.From.Instrs)-1]
+					if first == term || sx.ReachInstr(fn, first, term, cut) {
+						ok = false
+					}
+				}
+			} else {
+				for _, ret := range sx.Returns(fn) {
+					if sx.IsNilConst(returnValue(ret, 0)) && sx.ReachInstr(fn, first, ret, cut) {
+						ok = false
+					}
+				}
+			}
+		}
+		r.Check(ok, "C09-R2", "a flag mentioned on the command line is always applied (in "+fnName(fn)+")", p.FuncPos(fn), "no path from `ArgValue != nil` moves on without Set(*ArgValue)", "a path skips Set although the command line mentions the flag (e.g. text equal to the cached default): the JSON or environment value survives a higher-priority source")
+	}
+
 	// defaults only from NewFlagSet
 	for _, fn := range c.Fns {
 		sx.Instrs(fn, func(in ssa.Instruction) {
@@ -429,6 +481,75 @@ func runC09(p *core.Prog, r *core.Report) {
 				}
 			})
 			r.Check(okAll && n > 0, "C09-R5", fnName(pj)+": env carrier only when no config path", p.FuncPos(pj), "the environment carrier is read only on the path where the config path is empty", "the CFG_CONFIG_B64 carrier is consulted although -config names a file (or the emptiness test was not found)")
+		}
+	}
+
+	// ---- R7: env names of nested fields keep a separator between the group path and the field name
+	{
+		envF := fieldByName(c.Flag, "Env")
+		n := 0
+		for _, fn := range c.Fns {
+			for _, ref := range sx.FieldRefs([]*ssa.Function{fn}, envF) {
+				fa, ok := ref.Instr.(*ssa.FieldAddr)
+				if !ok {
+					continue
+				}
+				for _, a := range sx.Accesses(fa) {
+					if a.Kind != "write" {
+						continue
+					}
+					call, ok := a.Val.(*ssa.Call)
+					if !ok || len(call.Call.Args) == 0 {
+						continue
+					}
+					parts := concatParts(call.Call.Args[0])
+					// which part is the group path parameter, which the field name?
+					gi, fi := -1, -1
+					var groupParam *ssa.Parameter
+					for i, pt := range parts {
+						if prm, ok := pt.(*ssa.Parameter); ok && isStringT(prm.Type()) {
+							gi, groupParam = i, prm
+						}
+						if sx.Origins(pt)["field:StructField.Name"] {
+							fi = i
+						}
+					}
+					if gi < 0 || fi < 0 || groupParam == nil {
+						continue
+					}
+					n++
+					// separator either at the use site between group and field name, or at the end of the group argument of the recursive call
+					sepHere := false
+					for i := gi + 1; i < fi; i++ {
+						if s, ok := sx.ConstString(parts[i]); ok && strings.Contains(s, "_") {
+							sepHere = true
+						}
+					}
+					sepRec, nRec := true, 0
+					sx.Instrs(fn, func(in ssa.Instruction) {
+						rc, ok := in.(*ssa.Call)
+						if !ok || sx.StaticCallee(rc) != fn {
+							return
+						}
+						for i, prm := range fn.Params {
+							if prm != groupParam || i >= len(rc.Call.Args) {
+								continue
+							}
+							nRec++
+							ps := concatParts(rc.Call.Args[i])
+							last := ps[len(ps)-1]
+							if s, ok := sx.ConstString(last); !ok || !strings.HasSuffix(s, "_") {
+								sepRec = false
+							}
+						}
+					})
+					ok2 := sepHere || (nRec > 0 && sepRec)
+					r.Check(ok2, "C09-R7", "env name keeps '_' between the nested struct's name and the field name (in "+fnName(fn)+")", p.Pos(a.Instr.Pos()), "separator present", "the group path handed to nested structs does not end with '_' (and none is inserted when the name is built): `DB` + `URL` becomes CFG_DBURL instead of CFG_DB_URL, so the documented variable is never read")
+				}
+			}
+		}
+		if n == 0 {
+			r.Note("C09-R7: env name construction not recognised (no concatenation of a group parameter and the field name)")
 		}
 	}
 
